@@ -33,7 +33,7 @@ def paren_imm(rng, it, line):
 def vary(rng, items, lines, p=0.5):
     out = []
     for it, line in zip(items, lines):
-        if it['k'] in ('inst', 'pseudo', 'seq', 'pack', 'align') and rng.random() < p:
+        if it['k'] in ('inst', 'pseudo', 'seq', 'pack', 'align', 'data') and rng.random() < p:
             line = case_mnemonic(rng, line)
         if rng.random() < p * 0.6:
             line = paren_imm(rng, it, line)
